@@ -36,6 +36,7 @@ def harness_src(g, pkg, props, unconstrained=False, entry="", file_name=""):
     s.append("const symAlphabet = %s\n" % go_bytes_str(alpha))
     s.append("const symFile = %s\n" % gspec.go_quote(file_name))
     s.append("const symEntry = %s\n" % gspec.go_quote(entry))
+    s.append("const symFaultSlots = %d\n" % int(g.get("fault_slots", 0)))
     s.append('''
 type outcome struct {
 	v        any
@@ -110,6 +111,13 @@ func sameStrings(a, b []string) bool {
 	return true
 }
 
+// ambiguousStart: the line/col of offset 0 of an input that starts with a
+// newline is not pinned by the properties (1:1 or 2:0); a synthesized no-match
+// error located there is outside the oracle.
+func ambiguousStart(r ref.Result, in []byte) bool {
+	return r.NoMatch && r.FailOff == 0 && len(in) > 0 && in[0] == '\\n'
+}
+
 func outcomeNote(o outcome) string {
 	s := "v"
 	if o.v == nil {
@@ -154,9 +162,19 @@ func Harness_TWIN(n int) {
 }
 ''')
     if "C02" in props:
+        ptags = []
+        def collect(e):
+            b = e.get("block")
+            if b and e["k"] in ("andcode", "notcode", "state"):
+                ptags.append(b["tag"])
+        for r in g["rules"]:
+            gspec.walk(r["expr"], collect)
+        s.append("var symPredTags = map[string]bool{%s}\n" % ", ".join("%s: true" % gspec.go_quote(t) for t in sorted(set(ptags))))
         s.append('''
 // C02: every code-block invocation sees the true context (trace equality),
-// and positions are a pure function of input and offset.
+// and positions are a pure function of input and offset. Records of predicate
+// and state blocks are compared in two parts so that a stale text/pos (one
+// class of defect) is distinguishable from wrong labels or a wrong action context.
 func Harness_C02(n int) {
 	in := symInput(n, true)
 	o := runReal(in)
@@ -165,8 +183,22 @@ func Harness_C02(n int) {
 	symAssert(symEqual(len(o.tr), len(r.Trace)), "C02: number of code-block invocations differs")
 	if len(o.tr) == len(r.Trace) {
 		for i := range o.tr {
-			symAssert(symEqual(o.tr[i], r.Trace[i]), "C02: code block saw a different context than documented")
+			a, _ := o.tr[i].([]any)
+			b, _ := r.Trace[i].([]any)
+			tag, _ := b[0].(string)
+			if symPredTags[tag] && len(a) == len(b) && len(b) >= 5 {
+				symAssert(symEqual(a[0], b[0]), "C02: a different block ran")
+				symAssert(symEqual(a[5:], b[5:]), "C02: predicate/state block received different label values")
+				symDebug("real", a)
+				symDebug("ref", b)
+				symAssert(symEqual(a[1:5], b[1:5]), "C02-predctx: predicate/state block did not see empty text and the current position")
+			} else {
+				symAssert(symEqual(o.tr[i], r.Trace[i]), "C02: code block saw a different context than documented")
+			}
 		}
+	}
+	if r.OK {
+		symAssert(symEqual(o.v, r.Val), "C02: value built from text/pos/labels differs")
 	}
 	symReach("end")
 }
@@ -181,6 +213,12 @@ func Harness_C12(n int) {
 	symNote(outcomeNote(o))
 	if !r.OK {
 		symAssert(o.v == nil && o.err != nil, "C12: failed match must return nil value and an error")
+		if ambiguousStart(r, in) {
+			symReach("end")
+			return
+		}
+		symDebug("real", errStrings(o.err))
+		symDebug("ref", r.Errs)
 		symAssert(sameStrings(errStrings(o.err), r.Errs), "C12: error list differs (farthest position / expected set)")
 	}
 	symReach("end")
@@ -202,7 +240,11 @@ func Harness_C17(n int) {
 	if r.OK {
 		symAssert(symEqual(o.v, r.Val), "C17: value is not the original bytes")
 	}
-	symAssert(sameStrings(errStrings(o.err), r.Errs), "C17: error list differs")
+	if !ambiguousStart(r, in) {
+		symDebug("real", errStrings(o.err))
+		symDebug("ref", r.Errs)
+		symAssert(sameStrings(errStrings(o.err), r.Errs), "C17: error list differs")
+	}
 	symReach("end")
 }
 ''')
@@ -218,7 +260,20 @@ func Harness_C05(n int) {
 	symAssert(symEqual(len(o.tr), len(r.Trace)), "C05: number of block invocations differs")
 	if len(o.tr) == len(r.Trace) {
 		for i := range o.tr {
-			symAssert(symEqual(o.tr[i], r.Trace[i]), "C05: a block observed a store value different from the reference")
+			a, _ := o.tr[i].([]any)
+			b, _ := r.Trace[i].([]any)
+			if len(b) == 2 {
+				// [tag, value of state[key] as seen by the block]
+				symDebug("real", a)
+				symDebug("ref", b)
+				symAssert(symEqual(o.tr[i], r.Trace[i]), "C05: a block observed a store value different from the reference")
+			} else if len(a) == len(b) && len(b) >= 5 {
+				// context records: which block ran and with which labels (text/pos is C02's)
+				symAssert(symEqual(a[0], b[0]), "C05: a different block ran")
+				symAssert(symEqual(a[5:], b[5:]), "C05: block received different label values")
+			} else {
+				symAssert(false, "C05: malformed trace record")
+			}
 		}
 	}
 	if r.OK {
@@ -253,7 +308,6 @@ func Harness_C11(n int) {
 	for k := 0; k < symFaultSlots; k++ {
 		for j := 0; j < 2; j++ {
 			f := symInt("fault_"+string(rune('0'+k))+"_"+string(rune('0'+j)), 0, 3)
-			f = symConcretize(f)
 			faultPlan[k][j] = f
 			cfg.Faults[k][j] = f
 		}
@@ -277,7 +331,11 @@ func Harness_C11(n int) {
 			symAssert(symEqual(o.v, r.Val), "C11: value must be returned together with errors")
 		}
 	}
-	symAssert(sameStrings(errStrings(o.err), r.Errs), "C11: error list differs from the documented contract")
+	if !ambiguousStart(r, in) {
+		symDebug("real", errStrings(o.err))
+		symDebug("ref", r.Errs)
+		symAssert(sameStrings(errStrings(o.err), r.Errs), "C11: error list differs from the documented contract")
+	}
 	if o.err != nil {
 		el, ok := o.err.(errList)
 		symAssert(ok, "C11: error is not a list of parser errors")
